@@ -49,6 +49,10 @@ func rpRootText(ms []rpMention, place string) string {
 			lines = append(lines, fmt.Sprintf(`  "p%d": "x"|// {or: ["%s", "integer"]}`, i, n0))
 		case "or2":
 			lines = append(lines, fmt.Sprintf(`  "p%d": "x"|// {or: ["%s", "@%s"]}`, i, n0, m.Ns[1]))
+		case "ormixed":
+			lines = append(lines, fmt.Sprintf(`  "p%d": "x"|// {type: "mixed", or: ["%s", "@%s"]}`, i, n0, m.Ns[1]))
+		case "mixedor":
+			lines = append(lines, fmt.Sprintf(`  "p%d": "x"|// {or: ["%s", "integer"], type: "mixed"}`, i, n0))
 		case "orset":
 			lines = append(lines, fmt.Sprintf(`  "p%d": "x"|// {or: [{type: "%s"}, {type: "integer"}]}`, i, n0))
 		case "typenull":
